@@ -393,4 +393,5 @@ func runC13(c *Ctx) {
 			c.R.Count(a, b)
 		}
 	})
+	c.Require("FR:fr_siren_pipeline_verdicts", "ES:both_accept", "BE:both_accept", "GB:both_accept", "NL:both_reject")
 }
